@@ -607,7 +607,7 @@ void check_product_map(const std::string& site, const TA& ma, const TA& mb, cons
 void do_isect(const Step& s, bool bu) {
 	ETH& a = H(s, 0); ETH& b = H(s, 1); if (!same_alpha(a, b)) throw Skip();
 	if (too_big(a.model, &b.model)) throw Skip();
-	long mode = mod(s.arg(2), 3); VATA::AutBase::ProductTranslMap pm;
+	long mode = mod(s.arg(2), 4); VATA::AutBase::ProductTranslMap pm;
 	TA ma = a.model, mb = b.model; int al = a.alpha;
 	const std::string site = bu ? "et_isect_bu" : "et_isect";
 	api_begin();
@@ -615,17 +615,23 @@ void do_isect(const Step& s, bool bu) {
 		// pre-filled map: exactly what an earlier call of the same kind on the same operands left behind
 		ET first = bu ? ET::IntersectionBU(*a.aut, *b.aut, &pm) : ET::Intersection(*a.aut, *b.aut, &pm);
 	}
+	if (mode == 3) {
+		// one map reused across calls on OTHER operands (a joint numbering of several products): the earlier call's entries stay, new pairs get fresh numbers
+		ETH& a2 = CL(s).et[size_t(mod(s.arg(0) + 1, CL(s).et.size()))]; ETH& b2 = CL(s).et[size_t(mod(s.arg(1) + 2, CL(s).et.size()))];
+		if (a2.alpha != al || b2.alpha != al || too_big(a2.model, &b2.model)) mode = 1;
+		else { ET first = bu ? ET::IntersectionBU(*a2.aut, *b2.aut, &pm) : ET::Intersection(*a2.aut, *b2.aut, &pm); }
+	}
 	ET r = bu ? (mode == 0 ? ET::IntersectionBU(*a.aut, *b.aut) : ET::IntersectionBU(*a.aut, *b.aut, &pm))
 	          : (mode == 0 ? ET::Intersection(*a.aut, *b.aut) : ET::Intersection(*a.aut, *b.aut, &pm));
 	api_end();
 	if (armed("C02")) {
 		TA got = read_back(r);
-		lang_oracle("C02.isect-language", site + (mode == 2 ? ":prefilled-map" : ""), got, mdl::isect(ma, mb), bu ? "IntersectionBU" : "Intersection");
-		if (mode != 0) check_product_map(site + (mode == 2 ? ":prefilled-map" : ""), ma, mb, got, pm);
+		lang_oracle("C02.isect-language", site + (mode == 2 ? ":prefilled-map" : mode == 3 ? ":map-of-another-call" : ""), got, mdl::isect(ma, mb), bu ? "IntersectionBU" : "Intersection");
+		if (mode != 0) check_product_map(site + (mode == 2 ? ":prefilled-map" : mode == 3 ? ":map-of-another-call" : ""), ma, mb, got, pm);
 		check_operands_unchanged(s, a, &b, "C02");
 		note_ta_case(ma, &mb, bu ? 5 : 4);
 	}
-	{ ETH& nr = add_result(s, std::move(r), al); if (mode != 2) record_result(bu ? "isect_bu" : "isect", ma, &mb, al, nr.model); }
+	{ ETH& nr = add_result(s, std::move(r), al); if (mode < 2) record_result(bu ? "isect_bu" : "isect", ma, &mb, al, nr.model); }
 	after_mutation(s, site);
 }
 void op_isect(const Step& s) { do_isect(s, false); }
